@@ -18,6 +18,25 @@ type MemStore struct {
 	DropMask []bool // per batch commit (in commit order): true = lost
 	commits  int
 	Closed   bool
+	// CrashAfter >= 0: only the first CrashAfter durable write events (batch commits and
+	// direct Put/Delete calls, in program order) reach the disk; later ones are lost.
+	CrashAfter int
+	events     int
+	armed      bool
+}
+
+// ArmCrash makes the store lose every durable write event after the next n ones.
+func (m *MemStore) ArmCrash(n int) { m.armed, m.CrashAfter, m.events = true, n, 0 }
+
+// Disarm ends the crash window (the process has restarted).
+func (m *MemStore) Disarm() { m.armed = false }
+
+func (m *MemStore) lost() bool {
+	if !m.armed {
+		return false
+	}
+	m.events++
+	return m.events > m.CrashAfter
 }
 
 var _ storage.Storage = (*MemStore)(nil)
@@ -34,6 +53,13 @@ func (m *MemStore) find(k string) int {
 }
 
 func (m *MemStore) Put(key, value []byte) {
+	if m.lost() {
+		return
+	}
+	m.put(key, value)
+}
+
+func (m *MemStore) put(key, value []byte) {
 	v := append([]byte{}, value...)
 	if i := m.find(string(key)); i >= 0 {
 		m.vals[i] = v
@@ -44,6 +70,13 @@ func (m *MemStore) Put(key, value []byte) {
 }
 
 func (m *MemStore) Delete(key []byte) {
+	if m.lost() {
+		return
+	}
+	m.del(key)
+}
+
+func (m *MemStore) del(key []byte) {
 	if i := m.find(string(key)); i >= 0 {
 		m.keys = append(m.keys[:i:i], m.keys[i+1:]...)
 		m.vals = append(m.vals[:i:i], m.vals[i+1:]...)
@@ -175,12 +208,12 @@ func (m *MemStore) NewBatch() storage.Batch { return &memBatch{m: m} }
 
 func (b *memBatch) Put(key, value []byte) {
 	k, v := append([]byte{}, key...), append([]byte{}, value...)
-	b.ops = append(b.ops, func() { b.m.Put(k, v) })
+	b.ops = append(b.ops, func() { b.m.put(k, v) })
 }
 
 func (b *memBatch) Delete(key []byte) {
 	k := append([]byte{}, key...)
-	b.ops = append(b.ops, func() { b.m.Delete(k) })
+	b.ops = append(b.ops, func() { b.m.del(k) })
 }
 
 func (b *memBatch) Commit() {
@@ -188,6 +221,9 @@ func (b *memBatch) Commit() {
 	b.m.commits++
 	if n < len(b.m.DropMask) && b.m.DropMask[n] {
 		return // lost in the crash
+	}
+	if b.m.lost() {
+		return
 	}
 	for _, op := range b.ops {
 		op()
